@@ -1,6 +1,8 @@
 """C27 — the share crawler covers every bucket each cycle (storage/crawler.py ShareCrawler)."""
+import hashlib
 import json
 import os
+import random
 import shutil
 
 import common
@@ -29,13 +31,17 @@ LEVEL_NOTE = ("State file: state_file_tracks_memory / proc_refines_slice_machine
 RULE = ("a case is one event (slice / killed slice / restart) of a schedule run on the real ShareCrawler over a real directory tree; "
         "distinct = distinct (state file before, listing, oracle, kill point) tuples; non-trivial = the slice made at least one "
         "process_bucket call or was interrupted/killed")
-TRUSTED = ["lean/Tahoe/Storage/Crawler.lean is a hand transcription of start_slice/start_current_prefix/process_prefixdir/save_state",
+TRUSTED = ["the harness replaces the module attributes crawler.os (listdir / scandir hand out entries in a scripted order: native, "
+           "ascending, descending or a seeded permutation) and crawler._dump_json_to_file / _LeaseStateSerializer.save (kill after "
+           "the truncating open, after half the bytes, after the complete write, after save returned); whether save writes the "
+           "state path itself (in place) or a sibling + rename is OBSERVED on a probe save and passed to the driver (a0 / a1)",
+           "lean/Tahoe/Storage/Crawler.lean is a hand transcription of start_slice/start_current_prefix/process_prefixdir/save_state",
            "the harness scripts the clock by replacing the module attribute crawler.time and advancing it from the "
            "process_bucket / finished_prefix hooks (the time check is the next statement after each hook); a kill is an exception "
            "that leaves start_slice before save_state, after which the crawler object is discarded and re-created from the state file"]
 ASSUMPTIONS = ["bucket directory names start with the two-character prefix of the directory they live in",
                "directory contents change only between slices (the crawler runs synchronously inside a slice)",
-               "save_state (write tmp + rename) is atomic"]
+               "rename() of the state file is atomic (whether save_state uses tmp + rename at all is observed, not assumed)"]
 
 B32 = "abcdefghijklmnopqrstuvwxyz234567"
 
@@ -59,6 +65,20 @@ class Script:
         self.ft = ft
         self.log = []
         self.arm(set(), None, 0)
+
+    save_kill = None        # None or "t"/"h"/"w"/"r": kill inside the next state write at that point
+    order = None            # how directory listings are presented to the crawler: None (native), "asc", "desc", int seed
+
+    def permute(self, names):
+        names = list(names)
+        if self.order is None:
+            return names
+        names.sort()
+        if self.order == "desc":
+            names.reverse()
+        elif self.order != "asc":
+            random.Random("c27-order-%s-%s" % (self.order, ",".join(names))).shuffle(names)
+        return names
 
     def arm(self, oracle, kill_after, kill_style):
         self.oracle = oracle
@@ -111,6 +131,36 @@ class Srv:
         self.sharedir = sharedir
 
 
+class _Entries(list):
+    def __enter__(self):
+        return self
+
+    def __exit__(self, *a):
+        return False
+
+    def close(self):
+        pass
+
+
+class OsProxy:
+    """Stands in for the `os` module inside allmydata.storage.crawler: listdir / scandir hand out the directory
+    entries in the order the script chooses (a directory listing is a SET; no order may be relied upon)."""
+
+    def __init__(self, script_ref):
+        self._script_ref = script_ref
+
+    def __getattr__(self, name):
+        return getattr(os, name)
+
+    def listdir(self, path="."):
+        return self._script_ref().permute(os.listdir(path))
+
+    def scandir(self, path="."):
+        with os.scandir(path) as it:
+            ents = {e.name: e for e in it}
+        return _Entries(ents[n] for n in self._script_ref().permute(list(ents)))
+
+
 class World:
     def __init__(self, ctx):
         from allmydata.storage import crawler
@@ -123,11 +173,60 @@ class World:
         os.makedirs(self.root)
         self.cls = make_crawler_class()
         self.n = 0
-        probe = self.cls(Srv(self.root), os.path.join(self.root, "probe.state"), Script(self.ft))
+        self.script = Script(self.ft)          # the script currently in charge (listing order, save faults)
+        self.saved_os = crawler.os
+        crawler.os = OsProxy(lambda: self.script)
+        # fault injection / observation of the state write
+        self.saved_dump = crawler._dump_json_to_file
+        self.saved_save = crawler._LeaseStateSerializer.save
+        self.write_log = []                    # (written path == state path?) per _dump_json_to_file call of a save
+        world = self
+
+        def dump(js, afile):
+            sc = world.script
+            cur = world.current_save_path
+            if cur is not None:
+                world.write_log.append(afile.path == cur)
+            pt = sc.save_kill if cur is not None else None
+            if pt in ("t", "h"):
+                data = json.dumps(js).encode("utf8")
+                with afile.open("wb") as f:
+                    if pt == "h":
+                        f.write(data[:max(1, len(data) // 2)])
+                sc.save_kill = None
+                raise Killed()
+            world.saved_dump(js, afile)
+            if pt == "w":
+                sc.save_kill = None
+                raise Killed()
+
+        def save(serializer, data):
+            world.current_save_path = serializer._path.path
+            try:
+                res = world.saved_save(serializer, data)
+            finally:
+                world.current_save_path = None
+            if world.script.save_kill == "r":
+                world.script.save_kill = None
+                raise Killed()
+            return res
+
+        self.current_save_path = None
+        crawler._dump_json_to_file = dump
+        crawler._LeaseStateSerializer.save = save
+        probe = self.cls(Srv(self.root), os.path.join(self.root, "probe.state"), self.script)
         self.prefixes = list(probe.prefixes)
+        # which write discipline does the code implement?  atomic = never writes the state path itself
+        self.write_log = []
+        probe.save_state()
+        self.atomic = bool(self.write_log) and not any(self.write_log)
+        ctx.count("state-write:" + ("tmp+rename" if self.atomic else "in-place"))
 
     def close(self):
         self.crawler_mod.time = self.saved_time
+        self.crawler_mod.os = self.saved_os
+        self.crawler_mod._dump_json_to_file = self.saved_dump
+        self.crawler_mod._LeaseStateSerializer.save = self.saved_save
         shutil.rmtree(self.root, ignore_errors=True)
 
 
@@ -136,7 +235,7 @@ def read_state(statefile, rank, prefixes):
     try:
         with open(path, "rb") as f:
             st = json.load(f)
-    except OSError:
+    except (OSError, ValueError):          # missing or unreadable (truncated) state file: load_state's except branch
         return "N/N/0/N", None
     lcp = st["last-complete-prefix"]
     nxt = 0 if lcp is None else prefixes.index(lcp) + 1
@@ -172,6 +271,7 @@ def run_schedule(ctx, world, sched):
     rank = {n: i for i, n in enumerate(names)}
     pidx = {p: i for i, p in enumerate(world.prefixes)}
     script = Script(world.ft)
+    world.script = script
     srv = Srv(sharedir)
     c = world.cls(srv, statefile, script)
     present = set()
@@ -179,28 +279,38 @@ def run_schedule(ctx, world, sched):
     history = []     # for the monitor: (cycle worked on, listing set or None, killed?, slice log, state after)
     for ev in sched["events"]:
         state_before, st_before = read_state(statefile, rank, world.prefixes)
-        if ev["k"] in ("r", "g"):
+        if ev["k"] in ("r", "g", "x"):
             if ev["k"] == "g":
                 c.stopService()        # orderly shutdown between slices: calls save_state
+            elif ev["k"] == "x":       # stopService whose state write is hit by a kill at point ev["pt"]
+                script.save_kill = ev["pt"]
+                try:
+                    c.stopService()
+                    raise AssertionError("scripted kill inside save_state did not happen")
+                except Killed:
+                    pass
+                script.save_kill = None
             c = world.cls(srv, statefile, script)
             outs.append("-/" + read_state(statefile, rank, world.prefixes)[0] + "/" + mem_state(c, rank))
-            toks.append(ev["k"])
-            history.append((None, None, False, [], read_state(statefile, rank, world.prefixes)[1]))
-            ctx.case(None)
-            ctx.count("event:restart" if ev["k"] == "r" else "event:graceful-stop")
+            toks.append(ev["k"] + ev.get("pt", ""))
+            history.append((None, None, False, [], read_state(statefile, rank, world.prefixes)[1], ev["k"]))
+            ctx.case(("stop-kill", state_before, ev["pt"]) if ev["k"] == "x" else None)
+            ctx.count({"r": "event:restart", "g": "event:graceful-stop", "x": "event:kill-in-stop-save:" + ev.get("pt", "")}[ev["k"]])
             continue
         want = set(ev["ls"])
         for n in sorted(present - want):
             os.rmdir(os.path.join(sharedir, n[:2], n))
-        for n in sorted(want - present):
+        # created in an order unrelated to the names (native listings are then not ascending on most filesystems)
+        for n in sorted(want - present, key=lambda x: hashlib.sha256(x.encode()).digest()):
             os.makedirs(os.path.join(sharedir, n[:2], n))
         present = want
+        script.order = ev.get("ord")
         # listing in the order os.listdir reports it (the model sorts, as the code does)
         by_prefix = {}
         for p in sorted(set(n[:2] for n in names)):
             d = os.path.join(sharedir, p)
             if os.path.isdir(d):
-                l = os.listdir(d)
+                l = world.crawler_mod.os.listdir(d)       # the order the crawler will be shown
                 if l:
                     by_prefix[p] = l
         listing = ",".join("%d:%s" % (pidx[p], ".".join(str(rank[n]) for n in by_prefix[p])) for p in sorted(by_prefix, key=lambda p: pidx[p])) or "-"
@@ -217,6 +327,18 @@ def run_schedule(ctx, world, sched):
             c.start_slice()
             toks.append("s/%s/%s" % (oracle, listing))
             killed = False
+        elif ev["k"] == "w":       # complete slice whose final state write is hit by a kill at point ev["pt"]
+            script.arm(set(ev["o"]), None, 0)
+            script.save_kill = ev["pt"]
+            try:
+                c.start_slice()
+                raise AssertionError("scripted kill inside save_state did not happen")
+            except Killed:
+                pass
+            script.save_kill = None
+            c = world.cls(srv, statefile, script)
+            toks.append("w%s/%s/%s" % (ev["pt"], oracle, listing))
+            killed = True
         else:
             script.arm(set(ev["o"]), ev["kill"], ev.get("style", 0))
             try:
@@ -232,27 +354,35 @@ def run_schedule(ctx, world, sched):
         state_after, st_after = read_state(statefile, rank, world.prefixes)
         outs.append((",".join("%d.%d.%d" % (cy, pidx[p], rank[b]) for (cy, p, b) in lg) or "-") + "/" + state_after
                     + "/" + mem_state(c, rank))
-        history.append((working_on, set(want), killed, lg, st_after))
+        history.append((working_on, set(want), killed, lg, st_after, ev["k"]))
         nontrivial = bool(lg) or killed or bool(ev["o"])
-        ctx.case((state_before, listing, oracle, ev.get("kill"), ev["k"]) if nontrivial else None)
-        ctx.count("event:" + ("slice" if ev["k"] == "s" else "killed"))
+        ctx.case((state_before, listing, oracle, ev.get("kill"), ev["k"], ev.get("pt")) if nontrivial else None)
+        ctx.count("event:" + {"s": "slice", "k": "killed", "w": "kill-in-slice-save:" + ev.get("pt", "")}[ev["k"]])
+        if ev.get("ord") is not None:
+            ctx.count("listing-order:" + ("seeded" if isinstance(ev["ord"], int) else ev["ord"]))
+        if any(len(v) > 1 for v in by_prefix.values()):
+            ctx.count("slices-with-shared-prefix-dir")
         if st_after is not None and st_after["current-cycle"] is not None and not killed:
             ctx.count("slice-interrupted")
     monitor(ctx, sched, history)
     shutil.rmtree(base, ignore_errors=True)
-    return ";".join(outs), "crawl %d %s" % (len(world.prefixes), " ".join(toks))
+    return ";".join(outs), "crawl %d a%d %s" % (len(world.prefixes), 1 if world.atomic else 0, " ".join(toks))
 
 
 def monitor(ctx, sched, history):
     """The statement, on the real crawler's observations only."""
     # cycle numbers: last-cycle-finished goes None -> 0 -> 1 …, one step at a time; calls carry the cycle being worked on
     prev = None
-    for (working_on, ls, killed, lg, st) in history:
+    for (working_on, ls, killed, lg, st, kind) in history:
         lcf = None if st is None else st["last-cycle-finished"]
         if lcf != prev:
             exp = 0 if prev is None else prev + 1
             if lcf != exp:
-                ctx.violation("last-cycle-finished does not increase by one", sched, "cycle-number-step")
+                if prev is not None and (lcf is None or lcf < prev):
+                    ctx.violation("last-cycle-finished went back / was reset: completed cycle numbers would repeat", sched,
+                                  "cycle-number-reset-after-kill-in-state-write" if kind in ("w", "x") else "cycle-number-reset")
+                else:
+                    ctx.violation("last-cycle-finished does not increase by one", sched, "cycle-number-step")
             prev = lcf
         for (cy, p, b) in lg:
             if cy != working_on:
@@ -271,7 +401,9 @@ def monitor(ctx, sched, history):
         for b in sorted(always):
             n = calls.count(b)
             if n == 0:
+                shared = any(o != b and o[:2] == b[:2] for o in always)
                 ctx.violation("a bucket present throughout a completed cycle was never processed in it", sched,
+                              "bucket-never-processed:same-prefix" if shared else
                               "bucket-not-covered" + ("-after-kill" if anykill else ""))
             elif n > 1 and not anykill:
                 ctx.violation("a bucket was processed more than once in a cycle without a mid-slice kill", sched,
@@ -334,6 +466,15 @@ def systematic(world, names, tier_all):
         # interruption only, then a restart between slices
         scheds.append({"names": names, "events": [{"k": "s", "ls": names, "o": [c]}, {"k": "r"},
                                                   {"k": "s", "ls": names, "o": []}, {"k": "s", "ls": names, "o": []}]})
+        # interruption at c, then a slice / a stopService whose state write is killed at each point
+        if c in checks[:3]:
+            for pt in "thwr":
+                scheds.append({"names": names, "events": [{"k": "s", "ls": names, "o": []}, {"k": "s", "ls": names, "o": [c]},
+                                                          {"k": "w", "pt": pt, "ls": names, "o": [0]},
+                                                          {"k": "s", "ls": names, "o": []}, {"k": "s", "ls": names, "o": []}]})
+                scheds.append({"names": names, "events": [{"k": "s", "ls": names, "o": []}, {"k": "s", "ls": names, "o": [c]},
+                                                          {"k": "x", "pt": pt},
+                                                          {"k": "s", "ls": names, "o": []}, {"k": "s", "ls": names, "o": []}]})
         # interruption only, then an orderly stopService() + new process
         scheds.append({"names": names, "events": [{"k": "s", "ls": names, "o": [c]}, {"k": "g"},
                                                   {"k": "s", "ls": names, "o": [0]}, {"k": "g"},
@@ -360,14 +501,22 @@ def gen_random(rng, world, names):
         # later interruptions of one slice are counted from its own first check: also use small indices
         if rng.random() < 0.4:
             o.append(rng.randrange(0, 4))
-        if r < 0.07:
+        if r < 0.03:
+            evs.append({"k": "x", "pt": rng.choice("thwr")})
+        elif r < 0.07:
             evs.append({"k": "r"})
         elif r < 0.14:
             evs.append({"k": "g"})
         elif r < 0.35:
             evs.append({"k": "k", "ls": sorted(present), "o": o, "kill": rng.randrange(0, len(names) + 2), "style": rng.choice([0, 1])})
+        elif r < 0.42:
+            evs.append({"k": "w", "pt": rng.choice("thwr"), "ls": sorted(present), "o": o})
         else:
             evs.append({"k": "s", "ls": sorted(present), "o": o})
+    order = rng.choice([None, None, "desc", "asc", rng.randrange(1000)])
+    for ev in evs:
+        if "ls" in ev and order is not None:
+            ev["ord"] = order
     for ev in evs:
         if ev["k"] == "k" and ev["kill"] == 0:
             ev["style"] = 0
@@ -419,6 +568,29 @@ def regression_corpus(P):
         # (c) one prefix spans two slice ends in the same process, then a new process: the state file must carry the
         #     marker of the SECOND slice (no bucket twice without a mid-slice kill)
         res.append({"names": n3, "events": [{"k": "s", "ls": n3, "o": [0]}, {"k": "s", "ls": n3, "o": [0]}, {"k": stop},
+                                            {"k": "s", "ls": n3, "o": []}, {"k": "s", "ls": n3, "o": []}]})
+    # (d, seeded/C26-d) MANY buckets in ONE prefix directory, listed in descending / seeded order: the crawler must order
+    #     the listing itself; whole cycles, also with an interruption + restart inside the directory
+    for nb, suffixes in ((6, "aqbzc7"), (22, "mzalbkcjdiehfg2y3x4w5v")):
+        many = [P[5] + ch + "x" * 5 for ch in suffixes[:nb]] + [P[6] + "aa"]
+        for order in ("desc", 7, 11):
+            res.append({"names": many, "events": [{"k": "s", "ls": many, "o": [], "ord": order},
+                                                  {"k": "s", "ls": many, "o": [], "ord": order}]})
+            res.append({"names": many, "events": [{"k": "s", "ls": many, "o": [2], "ord": order}, {"k": "r"},
+                                                  {"k": "s", "ls": many, "o": [1], "ord": order},
+                                                  {"k": "s", "ls": many, "o": [], "ord": order},
+                                                  {"k": "s", "ls": many, "o": [], "ord": order}]})
+    # (d, seeded/C27-d) a kill INSIDE the state write, at each point, after two completed cycles / inside a cycle / in
+    #     stopService: cycle numbers must go on (…1, 2, 3), never reset
+    for pt in "thwr":
+        res.append({"names": n3, "events": [{"k": "s", "ls": n3, "o": []}, {"k": "s", "ls": n3, "o": []},
+                                            {"k": "w", "pt": pt, "ls": n3, "o": []},
+                                            {"k": "s", "ls": n3, "o": []}, {"k": "s", "ls": n3, "o": []}]})
+        res.append({"names": n3, "events": [{"k": "s", "ls": n3, "o": []}, {"k": "s", "ls": n3, "o": [0]},
+                                            {"k": "w", "pt": pt, "ls": n3, "o": [0]},
+                                            {"k": "s", "ls": n3, "o": []}, {"k": "s", "ls": n3, "o": []}]})
+        res.append({"names": n3, "events": [{"k": "s", "ls": n3, "o": []}, {"k": "s", "ls": n3, "o": [1]},
+                                            {"k": "x", "pt": pt},
                                             {"k": "s", "ls": n3, "o": []}, {"k": "s", "ls": n3, "o": []}]})
     return res
 
